@@ -144,6 +144,8 @@ func (s *SignerGen) bestForKey(
 			minTime(chain[0].NotAfter, trcs[0].TRC.GracePeriodEnd()),
 			trcs[1].TRC.Validity.NotAfter,
 		)
+		// The signer must not outlive the active TRC either (a grace period may reach beyond it).
+		expiry = minTime(expiry, trcs[0].TRC.Validity.NotAfter)
 	}
 	return &Signer{
 		PrivateKey:   key,
